@@ -32,6 +32,8 @@ func checkC03(r *Report, known []Finding) {
 		}
 		return fmt.Sprint(len(m) == 2*(re.NumSubexp()+1))
 	}})
+	// a plain find BEFORE the capture searches of every haystack: the engines share per-search tables between the two kinds of search
+	obs = append([]Obs{obsFind()[0]}, obs...)
 	runE2E(r, known, e2eSpec{prop: "C03", obs: obs, np: 5000, nh: 12, npT: 24000, nhT: 16, nontriv: func(w string) bool { return w != "nil" && strings.Count(w, " ") >= 3 }})
 	c03EngineTies(r, known, NewRNG(r.Seed))
 	c03SpecValidation(r, NewRNG(r.Seed))
@@ -54,7 +56,9 @@ func checkC10(r *Report, known []Finding) {
 	// shapes for which the mode matters on the paths that have their own engines: lazy quantifiers and prefix alternations under the
 	// backtracker strategy (ASCII variant: patterns with a dot), the DFA strategies (Count / FindAll loops) and start-anchored forms
 	probes := []string{`^.*?b`, `^.+?b`, `.*?b`, `^a.*?b`, `(?s)^.*?x`, `[ab]|[ab][ab]`, `[a-c]x|[a-c]x[a-c]`, `x[ab]|x[ab][ab]c`, `foo\d|foo\d\dz?`, `[a-z]+?`, `[a-z]??[a-z][0-9]*?`,
-		`(a|ab)(c|bcd)`, `\w+?\s`, `^(?:a|ab)+?`, `.+?`, `(?:.|ab)+?c?`}
+		`(a|ab)(c|bcd)`, `\w+?\s`, `^(?:a|ab)+?`, `.+?`, `(?:.|ab)+?c?`,
+		// literal engines (Teddy, Aho-Corasick): a later alternative that extends an earlier one
+		`cat|dog|catalog`, `mon|tue|month`, `http|ftp|https`, `GET|POST|GETX`, manyLiterals(70) + "|aekX|aekXy", `foo|foobar|bar`}
 	runE2E(r, known, e2eSpec{prop: "C10", obs: obs, longest: true, np: 4000, nh: 10, npT: 18000, nhT: 14, probes: probes, nontriv: func(w string) bool { return w != "nil" && w != "false" }})
 	c02MetaFindTie(r) // its longest / squeeze+longest variants: the core dispatch after SetLongest(true) vs Cx.MetaFind (flag L) and regexp with Longest()
 	// inputs beyond the capacity of the bounded backtracker (32M visited entries): the fallback engines must honour the mode as well
